@@ -7,11 +7,12 @@ Requests (felts as hex without prefix, bit strings over `0`/`1`, `-` = empty):
 
 * `vL <cfg> <root> <keybits> <node>*` — `trie.VerifyProof` on a proof node set
 * `v2 <cfg> <root> <keybits> <node>*` — `trie2.VerifyProof`;
-  `<cfg>` = three digits `<trustCache><earlyValue><zeroRoot>` (`Cfg`), `001` = the strict verifier
+  `<cfg>` = four digits `<trustCache><earlyValue><zeroRoot><walkCollapsed>` (`Cfg`), `0011` = the strict verifier
 
 `<node>` = `B:<sethash>:<child>:<child>:<cache>:<h2>` or `E:<sethash>:<pathbits>:<child>:<cache>:<h2>`
 where `<sethash>` is the key under which the node sits in the set, `<child>` = `h<felt>` (hash
-node) | `v<felt>` (value node) | `n` (nil), `<cache>` = cached node hash or `-`, and `<h2>` is the
+node) | `v<felt>` (value node) | `n` (nil) | `e<felt>` (embedded node with cached hash) | `p<felt>` (embedded node
+without cached hash; the felt is the hash `hasher.hash` computes for it), `<cache>` = cached node hash or `-`, and `<h2>` is the
 real two-argument hash of the node's content evaluated by the harness (`H(left, right)` for a
 binary node, `H(child, pathFelt)` for an edge node) — the model never computes Pedersen/Poseidon,
 it looks the value up in the table built from these facts.
@@ -43,6 +44,8 @@ def parseChild (s : String) : Option (Child Nat) :=
   | ['n'] => some ⟨.nil, 0⟩
   | 'h' :: rest => (hexToNat? (String.ofList rest)).map (fun v => ⟨.hash, v⟩)
   | 'v' :: rest => (hexToNat? (String.ofList rest)).map (fun v => ⟨.value, v⟩)
+  | 'e' :: rest => (hexToNat? (String.ofList rest)).map (fun v => ⟨.embCached, v⟩)
+  | 'p' :: rest => (hexToNat? (String.ofList rest)).map (fun v => ⟨.embPlain, v⟩)
   | _ => none
 
 def parseCache (s : String) : Option (Option Nat) :=
@@ -69,11 +72,16 @@ def parseNode (tok : String) : Option ((Nat × PNode Nat) × ((Nat × Nat) × Na
     pure ((k, .edge p ch c), ((ch.felt zeroAlg, pathVal p), h))
   | _ => none
 
+/-- `OrderedSet.Put` replaces the node stored under an existing key: of several entries with one key
+the LAST one is the node of the set (`PSet.get` takes the first match of the list). -/
+def dedupLast (ns : PSet Nat) : PSet Nat :=
+  ns.foldr (fun e acc => if acc.any (fun x => x.1 == e.1) then acc else e :: acc) []
+
 def parseNodes (toks : List String) : Option (PSet Nat × List ((Nat × Nat) × Nat)) :=
-  toks.foldr (fun t acc => do
+  (toks.foldr (fun t acc => do
     let (ns, tbl) ← acc
     let (n, f) ← parseNode t
-    pure (n :: ns, f :: tbl)) (some ([], []))
+    pure (n :: ns, f :: tbl)) (some ([], []))).map (fun (ns, tbl) => (dedupLast ns, tbl))
 
 def showRes : Res Nat → String
   | .ok v => "ok " ++ natToHex v
@@ -90,9 +98,9 @@ def showRRes : RRes → String
 
 def parseCfg (s : String) : Option Cfg :=
   match s.toList with
-  | [a, b, c] =>
-    if (a == '0' || a == '1') && (b == '0' || b == '1') && (c == '0' || c == '1') then
-      some ⟨a == '1', b == '1', c == '1'⟩
+  | [a, b, c, d] =>
+    if [a, b, c, d].all (fun x => x == '0' || x == '1') then
+      some ⟨a == '1', b == '1', c == '1', d == '1'⟩
     else none
   | _ => none
 
@@ -185,7 +193,7 @@ def step (s : Unit) (line : String) : Unit × String :=
     | _, _, _, _, _, _ => (s, "bad-op")
   | "pv" :: legacy :: cached :: height :: key :: rest =>
     let (kvToks, factToks) := splitAtBar rest
-    match parseCfg (legacy ++ cached ++ "0"), height.toNat?, parseBits key, parseAll parseKV kvToks,
+    match parseCfg (legacy ++ cached ++ "00"), height.toNat?, parseBits key, parseAll parseKV kvToks,
         parseAll parseFact factToks with
     | some f, some h, some key, some kvs, some tbl =>
       let A := tableAlg tbl
